@@ -27,7 +27,7 @@ Definition hip_dec (wire : list Z) (o : option name) (endp cur : nat) : res (lis
   do srv <- dec_rows wire o (S (endp - snd key)) [FName true] endp (snd key);
   Ok ([VS (VB (fst hit)); VS (VI (fst alg)); VS (VB (fst key)); VL (fst srv)], snd srv).
 
-(* constructor: hit at most 255 octets, algorithm uint8, key at most 65535 octets (fix f9231d5),
+(* constructor: hit at most 255 octets, algorithm uint8, key at most 65535 octets (fix bbfd526),
    servers names *)
 Definition hip_valid (vs : list val) : bool :=
   match vs with
@@ -509,7 +509,7 @@ Definition opt_norm (ot : Z) (d : list Z) : option (list Z) :=
   else if ot =? 15 then
     match d with
     | c1 :: c2 :: text =>
-        (* text.rstrip(b"\x00") (after fix 2815f69; before, only ONE trailing NUL was dropped and
+        (* text.rstrip(b"\x00") (after fix e554dd4; before, only ONE trailing NUL was dropped and
            the option's own encoding decoded to a different option) *)
         let text' := strip0 text in
         if utf8 text' then Some (c1 :: c2 :: text') else None
